@@ -3,20 +3,29 @@ from checks.tsutil import *
 from checks.orswotgen import *
 
 ID = 'C08'
+LEAN_MODULES = ['C08', 'C08b']
 RULE = ('one case = 1-3 replicas (OrSWotSet<2>, some <1>) that each receive the same pool of inserts/deletes (<=3 origins, <=4 keys, distinct stamps) in their own '
         'arrival order and through random sources, with purge_old_deletes calls inserted at arbitrary positions; half of the cases are timely by construction (every '
         'operation arrives less than F after everything the replica had applied: stamps spread over up to 3 hours but delivered in near-stamp order), the rest are untimely '
         '(model agreement only). After every purge: dump, cut-off probes, and will_apply/insert/delete probes at and below each purged tombstone from the deleting node; '
         'at the end the live entries of every replica are compared with the Lean LWW oracle (printed only when the arrival order is timely) and with each other; '
-        'non-trivial = at least one purge that actually removed a tombstone; distinct by hash')
+        'a second family replays valid TIMED CLUSTER RUNS of the C08b model on 2-3 real replicas (every operation delivered to every replica, duplicates included, less than D = 1000 s after its stamp and never more than the skew of 1000 s early; purges and real diff/apply exchanges at arbitrary moments; stamps spread over hours) and checks that every replica ends on exactly the last-writer-wins live documents (python oracle + Lean lww); ' 'non-trivial = at least one purge that actually removed a tombstone; distinct by hash')
 ASSUMPTIONS = ['timeliness (delivery delay + clock skew < forgiveness period) is a hypothesis of the cluster statement; it is checked on the arrival order by the driver before the oracle is printed',
                'FORGIVENESS_PERIOD = 3600 s; valid stamps']
 TRUSTED_BASE = ['correspondence: dcharness (real purge_old_deletes / insert / delete / will_apply) vs dcdriver (Datacake.OrSwot.purgeOldDeletes model)']
-THEOREM_NOTE = 'Datacake.OrSwot.purgeOldDeletes / isBefore (Model/Orswot.lean); theorems purge_local, purge_keeps_live, purged_stays_refused'
+THEOREM_NOTE = 'Datacake.OrSwot.purgeOldDeletes / isBefore (Model/Orswot.lean); theorems purge_local, purge_keeps_live, purged_stays_refused; cluster level (Props/C08b): live_is_lww_of_applied, timely_purge_invisible, purging_equals_never_purging'
 
 
 def removable(line):
     return line.split()[0] in ('ins', 'del', 'purge')
+
+
+def removable_for(case):
+    """Shrinking must stay inside the property's premise: in a timed cluster run a delivery cannot be dropped
+    (every operation reaches every replica in time); purges and exchanges can."""
+    if 'tag timed' in case:
+        return lambda line: line.split()[0] in ('purge', 'applydiff')
+    return removable
 
 
 def canon(line, out):
@@ -63,8 +72,64 @@ def gen_case(rng, idx):
     return lines, ops
 
 
-def add_probes(lines, impl_purges=None):
-    return lines
+DELAY = 1_000_000     # D: bound on the delivery delay (ms)
+SKEW = 1_000_000      # sigma: bound on the clock skew (ms); D + sigma <= F as C08b.Params demands
+
+
+def gen_timed(rng, idx):
+    """A valid timed run of the C08b cluster model on 2-3 real replicas: every operation reaches every replica less than D
+    after its stamp (duplicates too, any source), never from further in the future than the skew; purges and anti-entropy
+    exchanges (real diff against the peer's current, possibly purged, state) at arbitrary moments; stamps spread over hours."""
+    nreg = rng.range(2, 3)
+    origins = rng.shuffle([0, 1, 2, 9])[:rng.range(1, 3)]
+    keys = [1, 2, 3][:rng.range(1, 3)]
+    ops, t, used = [], T0, set()
+    for _ in range(rng.range(3, 12)):
+        t += rng.choice([4, 1000, 60_000, 600_000, 1_800_000, F_MS - 4, F_MS, F_MS + 4, 2 * F_MS])
+        st = pack(t, rng.below(3), rng.choice(origins))
+        if st in used: continue
+        used.add(st)
+        ops.append((rng.choice(['ins', 'del', 'del']), rng.choice(keys), st))
+    events = []     # (time, order, line)
+    seq = 0
+    for (kd, k, st) in ops:
+        for r in range(nreg):
+            # first delivery, then possibly duplicates, each within [stamp - skew, stamp + D)
+            for d in range(1 + (1 if rng.chance(1, 3) else 0) + (1 if rng.chance(1, 6) else 0)):
+                off = rng.choice([0, 0, 4, 1000, 500_000, DELAY - 4, -4, -1000, -SKEW])
+                tau = max(0, dts(st) + off)
+                srcs = [rng.below(2)] if rng.chance(1, 2) else [0, 1]
+                for src in srcs:
+                    seq += 1
+                    events.append((tau, seq, '%s %d %d %d %d' % (kd, r, src, k, st)))
+    tmin, tmax = min(e[0] for e in events), max(e[0] for e in events)
+    for _ in range(rng.range(1, 6)):
+        seq += 1
+        events.append((rng.range(tmin, tmax + 10), seq, 'purge %d' % rng.below(nreg)))
+    for _ in range(rng.range(0, 4)):
+        j = rng.below(nreg); i = (j + 1 + rng.below(nreg - 1)) % nreg
+        seq += 1
+        events.append((rng.range(tmin, tmax + 10), seq, 'applydiff %d %d 1 %d' % (j, i, rng.choice([0, 1, 2 + 2 * rng.below(64)]))))
+    events.sort()
+    lines = ['case %d orswot 2' % idx, 'tag timed']
+    for (_, _, l) in events:
+        if l.startswith('purge'):
+            r = l.split()[1]
+            lines += ['dump %s' % r, l, 'tag purged', 'dump %s' % r]
+        else:
+            lines.append(l)
+    for r in range(nreg):
+        lines += ['dump %d' % r, 'purge %d' % r, 'tag purged', 'dump %d' % r, 'lwwlive %d' % r]
+    lines += ['mode 0', 'end']
+    return lines, ops
+
+
+def py_lww_live(ops):
+    best = {}
+    for (kd, k, st) in ops:
+        rank = 2 * st + (1 if kd == 'ins' else 0)
+        if k not in best or rank > best[k]: best[k] = rank
+    return {k: r // 2 for k, r in best.items() if r % 2 == 1}
 
 
 def generate(rng, tier):
@@ -83,6 +148,9 @@ def generate(rng, tier):
                     out.append('will %d %d %d' % (r, k, st))
                     if st >= 512: out.append('will %d %d %d' % (r, 77, st - 256))
         cases.append(out)
+    for i in range(dict(quick=600, thorough=20000, search=8000)[tier]):
+        lines, ops = gen_timed(rng.fork(), n + i)
+        cases.append(lines)
     return cases
 
 
@@ -124,6 +192,16 @@ def oracle(case, impl):
         elif t[0] == 'lwwlive':
             final_live[t[1]] = out
         i += 1
+    if 'tag timed' in case:
+        ops = {}
+        for l in case:
+            t = l.split()
+            if t[0] in ('ins', 'del') and len(t) == 5: ops[(t[0], int(t[3]), int(t[4]))] = 1
+        want = py_lww_live(list(ops))
+        for r, out in final_live.items():
+            got = parse_dump(out + ' D -')[0] if out.startswith('E ') else None
+            if got != want:
+                bad.append('timely cluster run with purges: replica %s ends with live entries %s, the last-writer-wins live documents are %s' % (r, got, want))
     if mode and mode[0] == 0 and len(set(final_live.values())) > 1:
         bad.append('timely replicas that received the same operations expose different live entries: %s' % final_live)
     return bad
